@@ -102,6 +102,20 @@ def outSeqF (sep : Option Bytes) (term : Bytes) (items : List (Bytes × Bool)) :
 def outParF (sep : Option Bytes) (items : List (Bytes × Bool)) : Bytes :=
   outPar sep (items.map (·.1))
 
+/-! ### the "binary file matches" message (`standard.rs::StandardSink::finish` → `write_binary_message`)
+
+When a file is recognised as binary after a match (an explicitly named file: binary detection `convert`), the
+matching lines are withheld and `finish` writes the single line `path: binary file matches (…)` with
+`self.write(..)` directly — **without** `write_search_prelude`, so in the single-threaded run no file
+separator precedes that block.  (`flag = true`: the block is such a bare message.)  Multi-threaded, the
+message is in the worker's buffer like anything else and `BufferWriter::print` separates it. -/
+
+def seqPrintB (sep : Option Bytes) (term : Bytes) (st : Seq) (it : Bytes × Bool) : Seq :=
+  if it.2 then { out := st.out ++ it.1 } else seqPrint sep term st it.1
+
+def outSeqB (sep : Option Bytes) (term : Bytes) (items : List (Bytes × Bool)) : Bytes :=
+  (items.foldl (seqPrintB sep term) {}).out
+
 /-! ### `--files` with several threads: channel + one printing thread -/
 
 /-- `files_parallel`: the print thread writes each received path line; no separator. -/
